@@ -16,8 +16,22 @@ import (
 	"strings"
 	"testing"
 
+	"go.opentelemetry.io/collector/exporter/exporterhelper/internal/request"
+
 	"VERIF/vr"
 	"VERIF/vs"
+)
+
+// c04RealSig: a signal adapter plus the real sizers of its request type (layer 3, c04_real_test.go); registered by the
+// per-package adapter files
+type c04RealSig struct {
+	Sig    *c04Signal
+	Sizers func() map[request.SizerType]request.Sizer[request.Request]
+}
+
+var (
+	c04RealSignals []c04RealSig
+	c04RealUnit    string
 )
 
 // a shape is a list of resources; each resource a list of scopes; each scope a list of groups (metrics / profiles; one
